@@ -1133,6 +1133,8 @@ decl(struct scope *s, struct func *f)
 		case DECLFUNC:
 			if (align)
 				error(&tok.loc, "function '%s' declared with alignment specifier", name);
+			if (sc & SCTHREADLOCAL)  /* 6.7.1p4 */
+				error(&tok.loc, "function '%s' declared with storage class 'thread_local'", name);
 			if (f && sc && sc != SCEXTERN)  /* 6.7.1p7 */
 				error(&tok.loc, "function '%s' with block scope may only have storage class 'extern'", name);
 			d = declcommon(s, kind, name, asmname, t, tq, sc, prior);
